@@ -10,6 +10,8 @@ def run(P, R, L):
     K.ord8b_sequence_range(P, R, L)
     from . import round12 as _r12
     _r12.ord8b_span_not_narrowed(P, R, L)
+    R.clause("ORD-9b", "the write path loads the memtable pointer after make_room_for_write (which may rotate it): the group's batch is never inserted into the memtable that is being flushed")
+    _r12.ord9b_memtable_loaded_after_make_room(P, R, L)
     R.clause("ORD-8c", "recovery restores the sequence of the LAST operation of the last replayed batch (start + len - 1)")
     K.ord8c_recovered_sequence(P, R, L)
     R.clause("LCK-1", "get_snapshot / new_iterator / get read the visible sequence while the DB mutex is held")
